@@ -19,7 +19,7 @@ CONSTANTS
   CfgIds = {1}
   RemoteKeys = {"k1", "k2"}
   LocalKeys = {}
-  OtherCls = {"indication"}
+  OtherCls = {"indication", "data"}
   InCls = {"request"}
   CancelOps = {"cancel", "cancel_rt"}
   Horizon = 6
